@@ -1616,7 +1616,7 @@ DoTraversalAux(TraversalContext & data, DataNode & node)
                      if (DoDirectChildLookup(data, node, scratchStr, entryIdx, alreadyDid, depth)) return depth;
                   }
                }
-               else if (DoDirectChildLookup(data, node, key, entryIdx, alreadyDid, depth)) return depth;  // single-value-lookup case (most efficient)
+               else if (DoDirectChildLookup(data, node, RemoveEscapeChars(key), entryIdx, alreadyDid, depth)) return depth;  // single-value-lookup case (most efficient)
             }
             entryIdx++;
          }
@@ -1630,9 +1630,9 @@ bool
 StorageReflectSession :: NodePathMatcher ::
 DoDirectChildLookup(TraversalContext & data, const DataNode & node, const String & key, int32 entryIdx, Hashtable<DataNode *, Void> & alreadyDid, int & depth)
 {
-   // single-unique-value case
+   // single-unique-value case -- note that (key) is expected to have had its escape-chars removed already
    DataNodeRef nextChildRef;
-   if ((node.GetChild(RemoveEscapeChars(key), nextChildRef).IsOK())&&(alreadyDid.ContainsKey(nextChildRef()) == false))
+   if ((node.GetChild(key, nextChildRef).IsOK())&&(alreadyDid.ContainsKey(nextChildRef()) == false))
    {
       if (CheckChildForTraversal(data, nextChildRef(), entryIdx, depth)) return true;
       (void) alreadyDid.PutWithDefault(nextChildRef());
